@@ -680,6 +680,9 @@ func (v *Protocol) readBasicHeader() (format formatType, cid chunkID, err error)
 		return
 	}
 
+	// The 6 bits are 0 for the 2B form and 1 for the 3B form.
+	form := cid
+
 	// 64-319, 2B chunk header
 	if err = binary.Read(v.r, binary.BigEndian, &t); err != nil {
 		return format, cid, oe.Wrapf(err, "read basic header for cid=%v", cid)
@@ -687,7 +690,7 @@ func (v *Protocol) readBasicHeader() (format formatType, cid chunkID, err error)
 	cid = chunkID(64 + uint32(t))
 
 	// 64-65599, 3B chunk header
-	if cid == 1 {
+	if form == 1 {
 		if err = binary.Read(v.r, binary.BigEndian, &t); err != nil {
 			return format, cid, oe.Wrapf(err, "read basic header for cid=%v", cid)
 		}
